@@ -6440,8 +6440,20 @@ impl Nudge {
 
         assert!(smallest >= Unit::Day);
         let sign = balanced.get_sign_ranged();
-        let truncated = increment
-            * balanced.get_units_ranged(smallest).div_ceil(increment);
+        // N.B. A balanced span only has weeks when weeks are its largest
+        // unit. Otherwise, the whole weeks are still in its days, and they
+        // must be counted on the calendar. (Measuring them as elapsed time
+        // instead is wrong when the days include a time zone transition: 28
+        // days spanning the start of DST are 4 weeks, and not 3.994.)
+        let units = if smallest == Unit::Week {
+            balanced.get_units_ranged(Unit::Week)
+                + balanced
+                    .get_units_ranged(Unit::Day)
+                    .div_ceil(t::DAYS_PER_CIVIL_WEEK)
+        } else {
+            balanced.get_units_ranged(smallest)
+        };
+        let truncated = increment * units.div_ceil(increment);
         let span = balanced
             .without_lower(smallest)
             .try_units_ranged(smallest, truncated.rinto())
